@@ -3,6 +3,7 @@ package main
 // Wire format shared with the Lean driver (lean/Sqljson/Driver/Codec.lean).
 
 import (
+	"bytes"
 	"encoding/json"
 	"fmt"
 	"math"
@@ -29,6 +30,9 @@ func encItem(v any) any {
 	case int:
 		return J{"i": strconv.Itoa(v)}
 	case float64:
+		if math.IsNaN(v) {
+			return J{"f": "7ff8000000000001"} // one canonical NaN (payloads are not compared)
+		}
 		return J{"f": fmt.Sprintf("%016x", math.Float64bits(v))}
 	case json.Number:
 		return J{"n": string(v)}
@@ -211,9 +215,11 @@ func encAST(a *ast.AST) any {
 
 // marshal encodes v compactly without HTML escaping.
 func marshal(v any) []byte {
-	b, err := json.Marshal(v)
-	if err != nil {
+	var buf bytes.Buffer
+	enc := json.NewEncoder(&buf)
+	enc.SetEscapeHTML(false)
+	if err := enc.Encode(v); err != nil {
 		panic(err)
 	}
-	return b
+	return bytes.TrimRight(buf.Bytes(), "\n")
 }
